@@ -97,13 +97,52 @@ func main() {
 			stamp(call)
 			stamp(J{"ev": "ret", "g": 0, "k": i, "res": ev["res"]})
 		}
+		addedRules := []world.Op{}
 		clients := 2 + r.Intn(*maxG-1)
+		// every fifth round is about one rule being replaced while events that match it are processed:
+		// one client rewrites the rule (same when, another action), the others send the matching event
+		var directed [][]world.Op
+		if round%5 >= 3 && *via == "" && lay == "shared" {
+			for try := 0; try < 20 && directed == nil; try++ {
+				base := pg.Rule()
+				when, _ := base["when"].(map[string]interface{})
+				pat, _ := when["pattern"].(map[string]interface{})
+				if pat == nil {
+					continue
+				}
+				evt := pg.EventFor(pat)
+				if evt == nil {
+					continue
+				}
+				version := func(code string) map[string]interface{} {
+					return map[string]interface{}{"when": map[string]interface{}{"pattern": pat}, "action": map[string]interface{}{"code": code}}
+				}
+				op0 := world.Op{Op: "AddRule", Loc: "A", Id: "x1", Val: version("1")}
+				call := J{"ev": "call", "g": 0, "k": 50}
+				_, ev := w.Exec(op0, false)
+				for k, v := range ev {
+					if k != "res" && k != "ev" {
+						call[k] = v
+					}
+				}
+				stamp(call)
+				stamp(J{"ev": "ret", "g": 0, "k": 50, "res": ev["res"]})
+				writer := []world.Op{{Op: "AddRule", Loc: "A", Id: "x1", Val: version("2")}}
+				if r.Intn(2) == 0 {
+					writer = append(writer, world.Op{Op: "AddRule", Loc: "A", Id: "x1", Val: version("3")})
+				}
+				directed = [][]world.Op{writer}
+				for g := 2; g <= clients; g++ {
+					directed = append(directed, []world.Op{{Op: "ProcessEvent", Loc: "A", Val: evt}, {Op: "ProcessEvent", Loc: "A", Val: evt}})
+				}
+			}
+		}
 		var wg sync.WaitGroup
 		startGate := make(chan bool)
 		for g := 1; g <= clients; g++ {
 			gen := &world.Gen{R: rand.New(rand.NewSource(r.Int63())), P: prof, T: rec.T}
 			ops := []world.Op{}
-			for k := 0; k < *perG; k++ {
+			for k := 0; k < *perG && directed == nil; k++ {
 				op := gen.Next()
 				if op.Id == "" && (op.Op == "AddFact" || op.Op == "AddRule") {
 					op.Id = "x2"
@@ -115,6 +154,17 @@ func main() {
 					op.Op, op.Val = "GetFact", nil
 				}
 				ops = append(ops, op)
+				if op.Op == "AddRule" {
+					addedRules = append(addedRules, op)
+				}
+			}
+			if directed != nil {
+				ops = directed[g-1]
+				for _, op := range ops {
+					if op.Op == "AddRule" {
+						addedRules = append(addedRules, op)
+					}
+				}
 			}
 			wg.Add(1)
 			go func(g int, ops []world.Op) {
@@ -140,6 +190,35 @@ func main() {
 			fmt.Printf("DEADLOCK round=%d state=%s: clients did not finish within %v\n", round, state, *watch)
 			dump(*out, rec, append(all, events...))
 			os.Exit(3)
+		}
+		// probes: once every client is done, events made to match the rules written in this round are
+		// processed one after the other; they come after every call in real time, so they have to see
+		// the final rules (a stale parsed rule left in a cache shows here)
+		probes := 0
+		for _, ar := range addedRules {
+			if probes >= 3 {
+				break
+			}
+			when, _ := ar.Val["when"].(map[string]interface{})
+			pat, _ := when["pattern"].(map[string]interface{})
+			if pat == nil {
+				continue
+			}
+			evt := pg.EventFor(pat)
+			if evt == nil {
+				continue
+			}
+			op := world.Op{Op: "ProcessEvent", Loc: ar.Loc, Val: evt}
+			call := J{"ev": "call", "g": 0, "k": 100 + probes}
+			_, ev := w.Exec(op, false)
+			for k, v := range ev {
+				if k != "res" && k != "ev" {
+					call[k] = v
+				}
+			}
+			stamp(call)
+			stamp(J{"ev": "ret", "g": 0, "k": 100 + probes, "res": ev["res"]})
+			probes++
 		}
 		// final state: what every location returns for every id storage or memory may hold, and what storage holds
 		mem := J{}
